@@ -36,8 +36,12 @@ func genIntruders(t *rapid.T) []Intruder {
 }
 
 func genBindCase(t *rapid.T) BindCase {
-	c := BindCase{Side: rapid.SampledFrom([]string{"server-udp", "client-udp", "control", "control"}).Draw(t, "side")}
+	c := BindCase{Side: rapid.SampledFrom([]string{"server-udp", "client-udp", "control", "control", "server-mcast"}).Draw(t, "side")}
 	switch c.Side {
+	case "server-mcast":
+		c.Legit = rapid.IntRange(1, 6).Draw(t, "legit")
+		c.Intruders = genIntruders(t)
+		c.Timeout = rapid.IntRange(0, 3).Draw(t, "timeout") == 0
 	case "server-udp":
 		c.Role = rapid.SampledFrom([]string{"record", "record", "play"}).Draw(t, "role")
 		c.Wildcard = rapid.IntRange(0, 2).Draw(t, "wildcard") == 0
@@ -83,6 +87,9 @@ func TestC19(t *testing.T) {
 		}
 		if c.AnyPort {
 			labels = append(labels, "anyport")
+		}
+		if st.NoMulticast {
+			labels = append(labels, "multicast-unavailable(not judged)")
 		}
 		if c.Side == "control" {
 			labels = append(labels, "victim:"+c.Transport+"/"+c.State)
